@@ -1,0 +1,87 @@
+//go:build verif
+
+package app
+
+import (
+	"github.com/pkg/errors"
+	"github.com/tendermint/tendermint/store"
+
+	"github.com/Oneledger/protocol/app/node"
+	"github.com/Oneledger/protocol/config"
+	"github.com/Oneledger/protocol/data/chain"
+	"github.com/Oneledger/protocol/data/jobs"
+)
+
+// NewVerif builds an App that can be driven over ABCI without a Tendermint node.
+// It runs NewApp and Prepare; Prepare is expected to stop where it would read the
+// node key and genesis file and create the consensus node (the verification harness
+// supplies no node_key.json), i.e. after the start-up option copies were loaded from
+// the committed state.  The remaining node-independent steps of Prepare are done here.
+func NewVerif(cfg *config.Server, nodeCtx *node.Context, genesisDoc *config.GenesisDoc, blockStore *store.BlockStore) (*App, error) {
+	app, err := NewApp(cfg, nodeCtx)
+	if err != nil {
+		return nil, err
+	}
+	if err := app.Prepare(); err == nil {
+		return nil, errors.New("verif: Prepare unexpectedly created a consensus node")
+	} else if app.node != nil {
+		return nil, errors.Wrap(err, "verif: Prepare failed after creating a node")
+	} else if !verifPrepareStoppedAtNode(err) {
+		return nil, errors.Wrap(err, "verif: Prepare failed before the node stage")
+	}
+	app.genesisDoc = genesisDoc
+	app.Context.witnesses.Init(chain.ETHEREUM, app.Context.node.ValidatorAddress())
+	app.Context.SetBlockStore(blockStore)
+	return app, nil
+}
+
+func verifPrepareStoppedAtNode(err error) bool {
+	msg := err.Error()
+	for _, p := range []string{"failed parse NodeConfig", "failed get genesisDoc"} {
+		if len(msg) >= len(p) && msg[:len(p)] == p {
+			return true
+		}
+	}
+	return false
+}
+
+// VerifReinitWitness recomputes the node-local "am I an ethereum witness" flag the way
+// Prepare does, for harness runs that model it being computed after genesis was loaded.
+func (app *App) VerifReinitWitness() {
+	app.Context.witnesses.Init(chain.ETHEREUM, app.Context.node.ValidatorAddress())
+}
+
+// VerifIterate visits every key/value of the working tree (equal to the last commit
+// right after Commit).
+func (app *App) VerifIterate(fn func(key, value []byte) bool) {
+	app.Context.chainstate.Iterate(fn)
+}
+
+// VerifOverlay visits the deliver state's block cache in first-write order.
+func (app *App) VerifOverlay(fn func(key, value []byte) bool) {
+	app.Context.deliver.GetGasStore().GetIterable().Iterate(fn)
+}
+
+// VerifCheckOverlay visits the check state's cache in first-write order.
+func (app *App) VerifCheckOverlay(fn func(key, value []byte) bool) {
+	app.Context.check.GetGasStore().GetIterable().Iterate(fn)
+}
+
+// VerifJobs lists the ids of the ethereum jobs in the node-local job store.
+func (app *App) VerifJobs() []string {
+	ids := []string{}
+	app.Context.jobStore.WithChain(chain.ETHEREUM).Iterate(func(job jobs.Job) {
+		ids = append(ids, job.GetJobID())
+	})
+	return ids
+}
+
+// VerifClearJobs empties the node-local ethereum job store (a witness that lost its jobs).
+func (app *App) VerifClearJobs() {
+	js := app.Context.jobStore.WithChain(chain.ETHEREUM)
+	all := []jobs.Job{}
+	js.Iterate(func(job jobs.Job) { all = append(all, job) })
+	for _, j := range all {
+		_ = js.DeleteJob(j)
+	}
+}
